@@ -210,7 +210,24 @@ func checkC12(p *Prog, r *Report) {
 			}
 			ok = store != nil && len(ls.CommonSections(c, store)) > 0
 			r.Check("R2t", FnName(fn)+"|arm-under-lock", ok, p.InstrPos(c), fmt.Sprintf("timer created with locks %s; stored in the same critical section: %v", ls.At(c), ok))
-			r.Check("R2t", FnName(fn)+"|duration", strings.HasSuffix(Path(c.Call.Args[0]), ".writeTimeout"), p.InstrPos(c), "timer duration "+Path(c.Call.Args[0]))
+			// the configured approval timeout: the field the API setter SetWriteApprovalTimeout stores into
+			timeoutField := ""
+			if fli2 := p.LookupIface("api", "FeatureLocalInterface"); fli2 != nil {
+				for _, setter := range p.ImplsOf(fli2, "SetWriteApprovalTimeout") {
+					for _, sb := range setter.Blocks {
+						for _, si := range sb.Instrs {
+							if st, ok := si.(*ssa.Store); ok {
+								if fa, ok := st.Addr.(*ssa.FieldAddr); ok && fieldOfAddr(fa) != nil {
+									if _, isParam := st.Val.(*ssa.Parameter); isParam {
+										timeoutField = fieldOfAddr(fa).Name()
+									}
+								}
+							}
+						}
+					}
+				}
+			}
+			r.Check("R2t", FnName(fn)+"|duration", timeoutField != "" && strings.HasSuffix(Path(c.Call.Args[0]), "."+timeoutField), p.InstrPos(c), "timer duration "+Path(c.Call.Args[0])+"; configured timeout field: "+timeoutField)
 			// key of the stored entry: the request's message counter; outer key: the peer's SKI
 			if store != nil {
 				outer := ""
